@@ -79,7 +79,8 @@ def bases(mido):
                 lambda: mido.UnknownMetaMessage(0x60, data=(1, 2), time=5),
                 'data', (9,), None))
     # payloads at and beyond sizes where caches/bulk paths switch on
-    for n in (255, 256, 300, 1100):
+    for n in ((255, 256, 300, 1100) if common.tier() == 'thorough'
+              else (256, 300)):
         big = tuple((i * 3) & 0x7F for i in range(n))
         out.append((f'Message:sysex[{n}]',
                     lambda b=big: mido.Message('sysex', data=b, time=2),
